@@ -424,7 +424,11 @@ def run_check(prop, tier='quick', seed=0, jobs=None, replay=None):
     evidence = {'property_id': prop, 'tier': tier, 'seed': int(seed), 'level': 'exploration',
                 'coverage': coverage, 'assumptions': conf.get('assumptions', []),
                 'wall_s': round(wall, 2), 'violations': nvi}
-    if not replay and not os.environ.get('BCVERIF_NO_EVIDENCE'):
+    if not replay and os.environ.get('BCVERIF_EVIDENCE_DIR'):
+        os.makedirs(os.environ['BCVERIF_EVIDENCE_DIR'], exist_ok=True)
+        with open(os.path.join(os.environ['BCVERIF_EVIDENCE_DIR'], '%s.%s.%d.json' % (prop, tier, seed)), 'w') as f:
+            json.dump(evidence, f, indent=1, sort_keys=True, default=str)
+    elif not replay and not os.environ.get('BCVERIF_NO_EVIDENCE'):
         os.makedirs(os.path.join(HERE, 'evidence'), exist_ok=True)
         with open(os.path.join(HERE, 'evidence', '%s.json' % prop), 'w') as f:
             json.dump(evidence, f, indent=1, sort_keys=True, default=str)
